@@ -1,4 +1,316 @@
 import OtelVerif.Model.C20
-/-! C20 property theorems (stub) -/
+import OtelVerif.Lemmas.C20
+import OtelVerif.Lemmas.C20Mon
+/-!
+# C20 — collector run loop: one live service at a time, orderly reload, ends Closed
+
+Theorems about the LTS of `Model/C20.lean` (`fire`), for EVERY finite label sequence: any interleaving of
+the Run goroutine's statements with `Shutdown()` calls from any number of goroutines, config-watch
+notifications, signals, asynchronous errors, context cancellation, and any assignment of failures to the
+fallible calls (config/`service.New`, `service.Start`, `service.Shutdown`, provider `Shutdown`).
+`Reachable v s` = `∃ ls, run v ls = some s`; there is no bound on the length of `ls`.
+
+`v = .fixed` is the code with `fix: honour Shutdown() called while a config reload is in progress`;
+`v = .pinned` the code as pinned. Everything except `C20_shutdown_not_lost` holds for both.
+-/
 namespace OtelVerif.C20
+
+/-- the witness of DESIGN §C20 finding (1): start, SIGHUP, `Shutdown()` while the reload has the state at Closing -/
+def lostWitness : List Label :=
+  [.begin, .step true, .step true, .step true, .step true,      -- Starting … Running
+   .post .hup, .pick .hup, .step true,                          -- reload: state := Closing
+   .call,                                                       -- Shutdown(): guard sees Closing
+   .step true, .step true, .step true, .step true, .step true]  -- old service down, new one up, Running
+
+/-! ## one live service at a time -/
+
+/-- At every reachable state at most one configuration generation has live components; at the program
+point where the components of a configuration are created (`service.New`) nothing is live and every
+service created before has been through `service.Shutdown`. -/
+theorem C20_no_overlap (v : Variant) (s : S) (h : Reachable v s) :
+    s.live.length ≤ 1 ∧ (∀ rl, s.pc = .setup2 rl → s.live = [] ∧ s.created = s.sdLog) := by
+  have hi := inv_reachable h
+  have hl := hi.live
+  have hc := hi.created
+  simp only [S.core] at hl hc
+  refine ⟨?_, ?_⟩
+  · rw [hl]; by_cases hh : s.pc.hasLive = true <;> simp [hh]
+  · intro rl hpc
+    have : s.live = [] := by rw [hl]; simp [hpc, Pc.hasLive]
+    exact ⟨this, by rw [hc, this]; simp⟩
+
+/-- no service is shut down twice, whatever happens -/
+theorem C20_service_shutdown_at_most_once (v : Variant) (s : S) (h : Reachable v s) (g : Nat) :
+    s.sdLog.count g ≤ 1 := sdLog_count_le_one v s h g
+
+/-! ## a run that reached Running and is stopped ends Closed -/
+
+/-- If Run has returned after the select took a branch that leaves the loop (`stop = some e`), then: the run
+had reached Running, `e` is one of the listed stop reasons, the state is Closed, the config providers were
+shut down exactly once, nothing is live, every service ever created was shut down exactly once. -/
+theorem C20_ends_closed (v : Variant) (s : S) (h : Reachable v s) (e : Ev) (hs : s.stop = some e) (hr : s.ret.isSome = true) :
+    s.everRunning = true ∧ (e = .shutdown ∨ e = .term ∨ e = .ctx ∨ e = .async ∨ e = .watchErr) ∧
+    s.st = .closed ∧ s.provSd = 1 ∧ s.live = [] ∧ (∀ g ∈ s.created, s.sdLog.count g = 1) ∧ s.panic = false := by
+  have hi := inv_reachable h
+  have hpc : s.pc = .done := hi.retDone.1 hr
+  have hsome : s.stop.isSome = true := by simp [hs]
+  have hlive : s.live = [] := by have := hi.live; simp only [S.core] at this; rw [this]; simp [hpc, Pc.hasLive]
+  refine ⟨hi.stopEver hsome, ?_, hi.doneStop hpc hsome, ?_, hlive, created_all_shutdown h hlive, hi.noPanic⟩
+  · have := hi.stopKind e hs
+    cases e <;> simp [Ev.stops] at this ⊢
+  · have := hi.prov
+    simp only [S.core] at this
+    rw [this]; simp [hpc, hsome]
+
+/-- "… and Run returns": once a stop branch was taken nothing any other goroutine does can divert the Run
+goroutine from the shutdown path, each of its statements is enabled whatever the outcome of the fallible calls
+(`C20_run_never_stuck`), and as soon as its (at most four) remaining statements have been executed — in any
+interleaving with anything else — Run has returned. -/
+theorem C20_stop_returns (v : Variant) (s s' : S) (ls : List Label) (hr : Reachable v s) (hp : s.pc.inShut = true)
+    (h : runFrom v s ls = some s') (hn : s.pc.remaining ≤ countSteps ls) : s'.pc = .done ∧ s'.ret.isSome = true := by
+  obtain ⟨hp', hrem⟩ := shut_runFrom ls (Or.inl hp) h
+  have hdone : s'.pc = .done := by
+    rcases hp' with hp' | hp'
+    · have : s'.pc.remaining = 0 := by omega
+      cases hpc : s'.pc <;> simp [hpc, Pc.inShut, Pc.remaining] at hp' this
+    · exact hp'
+  have hr' : Reachable v s' := by
+    obtain ⟨ls0, h0⟩ := hr
+    refine ⟨ls0 ++ ls, ?_⟩
+    simp only [run] at h0 ⊢
+    rw [runFrom_append, h0]; exact h
+  exact ⟨hdone, (inv_reachable hr').retDone.2 hdone⟩
+
+/-- the Run goroutine is never blocked outside the select: its next statement is always enabled -/
+theorem C20_run_never_stuck (v : Variant) (s : S) (h1 : s.pc ≠ .idle) (h2 : s.pc ≠ .select) (h3 : s.pc ≠ .done) :
+    (fire v s (.step true)).isSome = true := by
+  cases hpc : s.pc <;> simp_all [fire, stepRun]
+
+/-- in the select a ready branch can always be taken; a closed shutdown channel and a cancelled context stay ready -/
+theorem C20_select_ready (v : Variant) (s : S) (hpc : s.pc = .select) (h : s.anyReady = true) :
+    ∃ e, (fire v s (.pick e)).isSome = true := by
+  simp only [S.anyReady, Bool.or_eq_true, decide_eq_true_eq] at h
+  rcases h with (((((h | h) | h) | h) | h) | h) | h
+  · exact ⟨.watchOk, by simp [fire, hpc, pickEv, h]⟩
+  · exact ⟨.watchErr, by simp [fire, hpc, pickEv, h]⟩
+  · exact ⟨.hup, by simp [fire, hpc, pickEv, h]⟩
+  · exact ⟨.term, by simp [fire, hpc, pickEv, h]⟩
+  · exact ⟨.async, by simp [fire, hpc, pickEv, h]⟩
+  · exact ⟨.shutdown, by simp [fire, hpc, pickEv, h]⟩
+  · exact ⟨.ctx, by simp [fire, hpc, pickEv, h]⟩
+
+/-- non-vacuity of `C20_no_overlap` / `C20_stop_returns`: a reachable state at the creation point of generation 2 with
+generation 1 created and shut down; a reachable state on the shutdown path -/
+example : (run .pinned (lostWitness.take 10 ++ [.step true])).map (fun s => (s.pc, s.gen, s.created, s.sdLog, s.live)) =
+    some (.setup2 true, 2, [1], [1], []) := by decide
+example : (run .fixed [.begin, .step true, .step true, .step true, .step true, .post .term, .pick .term]).map
+    (fun s => (s.pc, s.pc.inShut, s.stop)) = some (.shut1, true, some .term) := by rfl
+
+/-! ## initial / new configuration cannot be brought up -/
+
+/-- If Run returned without a stop branch having been taken, a set-up or a reload failed: Run returned an error,
+no component is left live and every service that was created (so: every component that was started) went through
+`service.Shutdown` exactly once. -/
+theorem C20_start_failure (v : Variant) (s : S) (h : Reachable v s) (hr : s.ret.isSome = true) (hs : s.stop = none) :
+    s.ret = some false ∧ s.live = [] ∧ (∀ g ∈ s.created, s.sdLog.count g = 1) ∧ s.panic = false := by
+  have hi := inv_reachable h
+  have hpc : s.pc = .done := hi.retDone.1 hr
+  have hlive : s.live = [] := by have := hi.live; simp only [S.core] at this; rw [this]; simp [hpc, Pc.hasLive]
+  exact ⟨hi.doneErr hpc hs, hlive, created_all_shutdown h hlive, hi.noPanic⟩
+
+/-- … and Run does return the error: from the point where the configuration is loaded / the service is built
+(`setup2`), resp. where the service is started (`setup3`), a failure leads to `done` with an error in at most three
+statements of the Run goroutine, the service created so far being shut down on the way. -/
+theorem C20_setup_failure_returns (v : Variant) (s : S) (b : Bool) (g : Nat) :
+    (s.pc = .setup2 true → ∃ s', runFrom v s [.step false] = some s' ∧ s'.pc = .done ∧ s'.ret = some false ∧ s'.sdLog = s.sdLog) ∧
+    (s.pc = .setup2 false → ∃ s', runFrom v s [.step false, .step true] = some s' ∧ s'.pc = .done ∧ s'.ret = some false ∧
+        s'.st = .closed ∧ s'.sdLog = s.sdLog) ∧
+    (s.pc = .setup3 true → s.svc = some g → ∃ s', runFrom v s [.step false, .step b] = some s' ∧ s'.pc = .done ∧
+        s'.ret = some false ∧ s'.sdLog = s.sdLog ++ [g]) ∧
+    (s.pc = .setup3 false → s.svc = some g → ∃ s', runFrom v s [.step false, .step b, .step true] = some s' ∧ s'.pc = .done ∧
+        s'.ret = some false ∧ s'.st = .closed ∧ s'.sdLog = s.sdLog ++ [g]) := by
+  refine ⟨?_, ?_, ?_, ?_⟩
+  · intro hpc
+    simp [runFrom, fire, stepRun, hpc, failSetup, S.emit]
+  · intro hpc
+    simp [runFrom, fire, stepRun, hpc, failSetup, S.emit, setSt]
+  · intro hpc hsvc
+    simp [runFrom, fire, stepRun, hpc, hsvc, failSetup, S.emit, svcShutdown]
+  · intro hpc hsvc
+    simp [runFrom, fire, stepRun, hpc, hsvc, failSetup, S.emit, svcShutdown, setSt]
+
+/-- non-vacuity of `C20_start_failure`: the initial `service.Start` fails; a reload's `service.New` fails -/
+example : (run .fixed [.begin, .step true, .step true, .step false, .step true, .step true]).map
+    (fun s => (s.ret, s.stop, s.st, s.created, s.sdLog)) = some (some false, none, .closed, [1], [1]) := by rfl
+example : (run .fixed [.begin, .step true, .step true, .step true, .step true, .post .hup, .pick .hup, .step true, .step true,
+    .step true, .step false]).map (fun s => (s.ret, s.stop, s.st, s.created, s.sdLog)) =
+    some (some false, none, .starting, [1], [1]) := by rfl
+
+/-! ## Shutdown() is safe, idempotent, and (repaired code) never lost -/
+
+/-- one complete `Shutdown()` call: read the state; if the guard passes, `close(shutdownChan)` (recovered if already closed) -/
+def doCall (v : Variant) (s : S) : Option S :=
+  (fire v s .call).bind (fun s1 => if s1.closers > s.closers then fire v s1 .close else some s1)
+
+/-- what `Shutdown()` can influence, apart from the log -/
+def S.ext (s : S) : Core × Bool × Nat × Bool × Nat × Nat × Nat × Nat × Nat × Bool :=
+  (s.core, s.chanClosed, s.closers, s.ctxDone, s.nWatchOk, s.nWatchErr, s.nHup, s.nTerm, s.nAsync, s.errs)
+
+/-- safe from any state and any goroutine: a call is enabled in EVERY state (reachable or not), it never blocks
+and never panics (the model of `close` on a closed channel is the recovered no-op), and it touches nothing but
+the shutdown channel -/
+theorem C20_shutdown_safe (v : Variant) (s : S) :
+    ∃ s', doCall v s = some s' ∧ s'.core = s.core ∧ s'.closers = s.closers ∧ (s.chanClosed = true → s'.chanClosed = true) := by
+  by_cases hh : v.honours s.st = true <;> simp [doCall, fire, S.emit, hh, S.core]
+
+/-- idempotent: two calls in a row leave the same state as one call -/
+theorem C20_shutdown_idempotent (v : Variant) (s : S) :
+    ((doCall v s).bind (doCall v)).map S.ext = (doCall v s).map S.ext := by
+  by_cases hh : v.honours s.st = true <;> simp [doCall, fire, S.emit, hh, S.ext, S.core]
+
+/-- once the channel is closed, or in state Closed, a call changes nothing -/
+theorem C20_shutdown_noop_when_closed (v : Variant) (s : S) (h : s.chanClosed = true ∨ s.st = .closed) :
+    (doCall v s).map S.ext = some s.ext := by
+  by_cases hh : v.honours s.st = true
+  · rcases h with h | h
+    · simp [doCall, fire, S.emit, hh, S.ext, S.core, h]
+    · cases v <;> simp [Variant.honours, h] at hh
+  · simp [doCall, fire, S.emit, hh, S.ext, S.core]
+
+/-- **Not lost** (repaired code): in every reachable state in which a `Shutdown()` call has been made after Running was
+reached, the shutdown channel is closed, or the calling goroutine is about to close it, or Run has already returned. -/
+theorem C20_shutdown_not_lost (s : S) (h : Reachable .fixed s) : NotLost s := by
+  obtain ⟨ls, h⟩ := h
+  suffices ∀ (ls : List Label) (s0 : S), Inv s0.core → NotLost s0 → runFrom .fixed s0 ls = some s → NotLost s from
+    this ls init inv_init (by simp [NotLost, init]) h
+  intro ls
+  induction ls with
+  | nil => intro s0 _ hn h; simp only [runFrom, Option.some.injEq] at h; subst h; exact hn
+  | cons l ls ih =>
+    intro s0 hi hn h
+    simp only [runFrom] at h
+    cases hf : fire .fixed s0 l with
+    | none => simp [hf] at h
+    | some s1 => simp only [hf, Option.bind_some] at h; exact ih s1 (inv_fire .fixed hi hf) (notLost_fire hi hn hf) h
+
+/-- the system is at rest: no goroutine is inside `Shutdown()`, nothing is ready in the select, the Run goroutine is
+in the select (or not started / returned) -/
+def Quiescent (s : S) : Prop := s.closers = 0 ∧ s.anyReady = false ∧ (s.pc = .select ∨ s.pc = .done ∨ s.pc = .idle)
+
+/-- **Honoured** (repaired code): the collector cannot come to rest in the select with a shutdown request outstanding —
+at rest, Run has returned; and (`C20_ends_closed`) if it returned because of the request, in Closed. -/
+theorem C20_shutdown_honoured (s : S) (h : Reachable .fixed s) (hr : s.req = true) (hq : Quiescent s) : s.pc = .done := by
+  obtain ⟨hc, ha, _⟩ := hq
+  rcases C20_shutdown_not_lost s h hr with h1 | h1 | h1
+  · simp [S.anyReady, h1] at ha
+  · omega
+  · exact h1
+
+/-- **The pinned code loses the request**: the full statement fails for `Variant.pinned` — after `lostWitness` a
+`Shutdown()` has been made after Running, yet the system is at rest in the select, channel open, Run not returned. -/
+theorem C20_shutdown_not_lost_pinned_fails :
+    ¬ (∀ s, Reachable .pinned s → s.req = true → Quiescent s → s.pc = .done) := by
+  intro hall
+  have hw : (run .pinned lostWitness).map (fun s => (s.req, s.closers, s.anyReady, s.pc, s.st, s.chanClosed)) =
+      some (true, 0, false, .select, .running, false) := by decide
+  cases hs : run .pinned lostWitness with
+  | none => simp [hs] at hw
+  | some s =>
+    simp only [hs, Option.map_some, Option.some.injEq, Prod.mk.injEq] at hw
+    obtain ⟨h1, h2, h3, h4, _, _⟩ := hw
+    have := hall s ⟨_, hs⟩ h1 ⟨h2, h3, Or.inl h4⟩
+    simp [h4] at this
+
+/-- non-vacuity of `C20_shutdown_honoured`: on the repaired code the same history leaves the channel closed … -/
+example : (run .fixed (lostWitness ++ [.close])).map (fun s => (s.req, s.chanClosed, s.pc)) = some (true, true, .select) := by
+  decide
+
+/-- … and the run then ends Closed with everything shut down exactly once (the hypotheses of `C20_ends_closed` are met) -/
+example : (run .fixed (lostWitness ++ [.close, .pick .shutdown, .step true, .step true, .step true, .step true])).map
+    (fun s => (s.stop, s.ret, s.st, s.sdLog, s.provSd, s.live)) = some (some .shutdown, some true, .closed, [1, 2], 1, []) := by
+  rfl
+
+/-! ## the trace monitor is sound -/
+
+/-- The property on an event log (component create / start / shutdown with generation, provider shutdown, state
+samples, `Shutdown()` calls, stop branch, Run's return, "at rest" observations), stated without reference to the
+monitor or the model. -/
+structure TraceOK (t : List TEv) : Prop where
+  /-- between the start of a component and the creation of a component of ANOTHER configuration lies its shutdown -/
+  noOverlapCreate : ∀ p1 p2 p3 g c g' c', t = p1 ++ .started g c :: (p2 ++ .created g' c' :: p3) → g ≠ g' → TEv.shut g c ∈ p2
+  noOverlapStart : ∀ p1 p2 p3 g c g' c', t = p1 ++ .started g c :: (p2 ++ .started g' c' :: p3) → g ≠ g' → TEv.shut g c ∈ p2
+  shutOnce : ∀ g c, t.count (.shut g c) ≤ 1
+  provOnce : t.count .prov ≤ 1
+  /-- when Run returns every started component has been shut down -/
+  retClean : ∀ p ok q, t = p ++ .ret ok :: q → ∀ g c, TEv.started g c ∈ p → TEv.shut g c ∈ p
+  /-- … and if a stop branch had been taken, the state is Closed and the providers were shut down exactly once -/
+  stopClosed : ∀ p ok q, t = p ++ .ret ok :: q → TEv.stop ∈ p → lastSt .starting p = .closed ∧ p.count .prov = 1
+  /-- the system is never at rest with Run not returned after a `Shutdown()` that followed Running -/
+  notLost : ∀ p q, t = p ++ .quiet :: q → (∃ p1 p2 p3, p = p1 ++ .st .running :: (p2 ++ .call :: p3)) → ∃ ok, TEv.ret ok ∈ p
+
+/-- soundness of the monitor: a log it accepts satisfies every clause -/
+theorem C20_check_sound (t : List TEv) (h : check t = true) : TraceOK t := by
+  obtain ⟨m, hm⟩ := check_ok h
+  refine ⟨?_, ?_, ?_, ?_, ?_, ?_, ?_⟩
+  · intro p1 p2 p3 g c g' c' ht hne
+    subst ht
+    apply Classical.byContradiction; intro hn
+    have hm' : Mon.run {} ((p1 ++ .started g c :: p2) ++ .created g' c' :: p3) = .ok m := by simpa using hm
+    obtain ⟨ma, me, h1, h2, _⟩ := Mon.run_split hm'
+    have hl : (g, c) ∈ ma.live := Mon.started_live h1 hn
+    exact hne (((Mon.step_ok h2).1 g' c' rfl).2 (g, c) hl)
+  · intro p1 p2 p3 g c g' c' ht hne
+    subst ht
+    apply Classical.byContradiction; intro hn
+    have hm' : Mon.run {} ((p1 ++ .started g c :: p2) ++ .started g' c' :: p3) = .ok m := by simpa using hm
+    obtain ⟨ma, me, h1, h2, _⟩ := Mon.run_split hm'
+    have hl : (g, c) ∈ ma.live := Mon.started_live h1 hn
+    exact hne (((Mon.step_ok h2).2.1 g' c' rfl).2 (g, c) hl)
+  · intro g c
+    have := Mon.shut_count hm g c
+    simp only [ind, List.not_mem_nil, if_false, Nat.add_zero] at this
+    split at this <;> omega
+  · have := (Mon.prov_count hm (by simp)).1
+    have h2 := (Mon.prov_count hm (by simp)).2
+    simp at this; omega
+  · intro p ok q ht g c hs
+    subst ht
+    apply Classical.byContradiction; intro hn
+    obtain ⟨ma, me, h1, h2, _⟩ := Mon.run_split hm
+    obtain ⟨p1, p2, rfl⟩ := List.append_of_mem hs
+    have hl : (g, c) ∈ ma.live := Mon.started_live h1 (fun hh => hn (by simp [hh]))
+    have := ((Mon.step_ok h2).2.2.2.2.2.2.2.2 ok rfl).2.1
+    rw [this] at hl; cases hl
+  · intro p ok q ht hs
+    subst ht
+    obtain ⟨ma, me, h1, h2, _⟩ := Mon.run_split hm
+    have hf := Mon.flags h1
+    have hst := ((Mon.step_ok h2).2.2.2.2.2.2.2.2 ok rfl).2.2 (hf.2.1 hs)
+    have hp := (Mon.prov_count h1 (by simp)).1
+    refine ⟨?_, ?_⟩
+    · rw [← hst.1, hf.2.2.2.2.2]
+    · simp at hp; omega
+  · intro p q ht hex
+    subst ht
+    obtain ⟨p1, p2, p3, rfl⟩ := hex
+    obtain ⟨ma, me, h1, h2, _⟩ := Mon.run_split hm
+    obtain ⟨mb, mc, g1, g2, g3⟩ := Mon.run_split h1
+    obtain ⟨md, mf, j1, j2, j3⟩ := Mon.run_split g3
+    have e1 : mc.everRunning = true := by rw [(Mon.step_ok g2).2.2.2.2.1 .running rfl]; simp
+    have e2 : md.everRunning = true := (Mon.flags j1).2.2.1 e1
+    have e3 : mf.req = true := by rw [(Mon.step_ok j2).2.2.2.2.2.1 rfl]; simp [e2]
+    have e4 : ma.req = true := (Mon.flags j3).2.2.2.1 e3
+    have e5 := ((Mon.step_ok h2).2.2.2.2.2.2.2.1 rfl).2 e4
+    rcases (Mon.flags h1).2.2.2.2.1 e5 with h0 | h0
+    · simp at h0
+    · exact h0
+
+/-- non-vacuity: the monitor accepts the log of a run with a reload and a clean stop, rejects a log in which a component of
+generation 2 is created while generation 1 is live, and rejects rest-in-select after a `Shutdown()` that followed Running -/
+example : check [.st .starting, .created 1 0, .started 1 0, .st .running, .st .closing, .shut 1 0, .st .starting, .created 2 0,
+    .started 2 0, .st .running, .call, .stop, .st .closing, .prov, .shut 2 0, .st .closed, .ret true] = true := by decide
+example : check [.st .starting, .created 1 0, .started 1 0, .st .running, .st .closing, .created 2 0] = false := by decide
+example : check [.st .starting, .created 1 0, .started 1 0, .st .running, .st .closing, .call, .shut 1 0, .st .starting,
+    .created 2 0, .started 2 0, .st .running, .quiet] = false := by decide
+
 end OtelVerif.C20
